@@ -256,6 +256,11 @@ def run(run, tier, replay):
                     break
         sneg, _ = replay_file(bad, fss)
         nm = sum(p["count"] for p in sneg["problems"] if p["type"] == "mismatch")
+        if run.violations:
+            # the implementation already violates the contract in this run: the corrupted cases may fail as
+            # contract problems instead of drift, so the control says nothing (the run exits 1 anyway)
+            run.note("negative_control", "skipped: violations present")
+            return
         if k < 30 or nm < k:
             raise vlib.ToolError("negative control: corrupted expectations were accepted (%d of %d noticed)" % (nm, k))
         bad2 = os.path.join(tmp, "neg2.jsonl")
